@@ -469,6 +469,19 @@ func refValue(v string) (interface{}, bool) {
 		return (*int)(nil), true
 	case "ref:ptr":
 		return &refPtrTarget, true
+	case "ref:ptrzero": // a non-nil pointer is truthy whatever it points to
+		z := 0
+		return &z, true
+	case "ref:ptrptrzero":
+		z := 0
+		pz := &z
+		return &pz, true
+	case "ref:ptrfalse":
+		f := false
+		return &f, true
+	case "ref:ptrempty":
+		e := ""
+		return &e, true
 	case "ref:nilmap":
 		return map[string]int(nil), true
 	case "ref:emptymap":
